@@ -110,7 +110,7 @@ Definition apply_tev (t : table) (e : tev) : table :=
 Definition tevs_of (m : msg) : list tev :=
   match m with
   | MHello (Some iid) s => [TAnn (with_iid iid s)]
-  | MBye epr => [TBye epr]
+  | MBye epr _ => [TBye epr]
   | MProbeMatches (Some iid) ms => map (fun s => TAnn (with_iid iid s)) ms
   | MResolveMatches (Some iid) (Some s) => [TAnn (with_iid iid s)]
   | _ => []
@@ -151,7 +151,7 @@ Section Handlers.
     remote (fst (handle M fixed split d m)) = fold_left apply_tev (tevs_of m) (remote d) /\
     local (fst (handle M fixed split d m)) = local d.
   Proof.
-    intros d m. destruct m as [[iid|] s|epr|types scopes|[iid|] ms|epr|[iid|] [s|]|]; simpl; auto.
+    intros d m. destruct m as [[iid|] s|epr bx|types scopes|[iid|] ms|epr|[iid|] [s|]|]; simpl; auto.
     - destruct (filter_services M fixed split (t_values (local d)) types scopes); simpl; auto.
     - destruct (probe_matches (remote d) iid ms) as [t os] eqn:E. simpl. split; auto.
       rewrite <- probe_matches_table, E. reflexivity.
@@ -163,7 +163,7 @@ Section Handlers.
     In (OResolveMatch s) (snd (handle M fixed split d m)) ->
     exists epr, m = MResolve epr /\ t_get epr (local d) = Some s.
   Proof.
-    intros d m s. destruct m as [[iid|] sv|epr|types scopes|[iid|] ms|epr|[iid|] [sv|]|]; simpl; try tauto.
+    intros d m s. destruct m as [[iid|] sv|epr bx|types scopes|[iid|] ms|epr|[iid|] [sv|]|]; simpl; try tauto.
     - destruct (s_xaddrs sv); simpl; [intros [H|[]]; discriminate|tauto].
     - destruct (filter_services M fixed split (t_values (local d)) types scopes); simpl; [|tauto].
       rewrite in_map_iff. intros (x & H & _). discriminate.
@@ -181,12 +181,28 @@ Section Handlers.
   Theorem probe_match_only_for_probe : forall d m s,
     In (OProbeMatch s) (snd (handle M fixed split d m)) -> exists types scopes, m = MProbe types scopes.
   Proof.
-    intros d m s. destruct m as [[iid|] sv|epr|types scopes|[iid|] ms|epr|[iid|] [sv|]|]; simpl; try tauto; eauto.
+    intros d m s. destruct m as [[iid|] sv|epr bx|types scopes|[iid|] ms|epr|[iid|] [sv|]|]; simpl; try tauto; eauto.
     - destruct (s_xaddrs sv); simpl; [intros [H|[]]; discriminate|tauto].
     - destruct (probe_matches (remote d) iid ms) as [t os] eqn:E. simpl. intros H.
       destruct (probe_matches_outs ms (remote d) iid (OProbeMatch s)) as [e He]; [now rewrite E|discriminate].
     - destruct (t_get epr (local d)); simpl; [intros [H|[]]; discriminate|tauto].
   Qed.
+  (* ------------------------------------------------------------ a Bye ends the history of its endpoint reference, whatever else it carries *)
+  Theorem bye_clears : forall d epr bx,
+    handle M fixed split d (MBye epr bx) = (mkD (t_del epr (remote d)) (local d), []) /\
+    t_get epr (remote (fst (handle M fixed split d (MBye epr bx)))) = None /\
+    (forall k, bytes_eqb k epr = false ->
+               t_get k (remote (fst (handle M fixed split d (MBye epr bx)))) = t_get k (remote d)).
+  Proof.
+    intros d epr bx. cbn [handle fst remote]. split; [reflexivity|]. split; [apply t_get_del_same|].
+    intros k H. now apply t_get_del_other.
+  Qed.
+
+  (* a Probe naming a matching rule the node does not implement, with at least one scope, is not answered *)
+  Theorem probe_unknown_rule : forall d types mb u us,
+    is_rfc M mb = false -> is_strcmp M mb = false ->
+    handle M fixed split d (MProbe types (Some (mb, u :: us))) = (d, []).
+  Proof. intros d types mb u us H1 H2. cbn [handle]. now rewrite filter_services_other by auto. Qed.
 End Handlers.
 
 (* ---------------------------------------------------------------- Probe: exactly the matching published services (repaired code) *)
@@ -225,5 +241,23 @@ Section History.
     intros ms epr H. rewrite handle_all_remote. simpl remote.
     change (@nil (bytes * service)) with (table_of []). rewrite table_of_app, app_nil_r.
     now apply table_max_version.
+  Qed.
+  (* the first announcement after a Bye is recorded as it is, whatever version was recorded before the Bye
+     and whatever the Bye carried ("since its last Bye" read literally) *)
+  Lemma add_after_del : forall t s, s_epr s <> [] -> t_get (s_epr s) (add_remote (t_del (s_epr s) t) s) = Some s.
+  Proof.
+    intros t s H. unfold add_remote.
+    assert (nonempty (s_epr s) = true) as -> by (destruct (s_epr s); [congruence|reflexivity]). cbn [negb].
+    rewrite t_get_del_same. apply t_get_set_same.
+  Qed.
+
+  Theorem announcement_after_bye : forall d bx iid s, s_epr s <> [] ->
+    t_get (s_epr s) (remote (handle_all d [MBye (s_epr s) bx; MHello (Some iid) s])) = Some (with_iid iid s) /\
+    t_get (s_epr s) (remote (handle_all d [MBye (s_epr s) bx; MResolveMatches (Some iid) (Some s)])) = Some (with_iid iid s) /\
+    t_get (s_epr s) (remote (handle_all d [MBye (s_epr s) bx; MProbeMatches (Some iid) [s]])) = Some (with_iid iid s).
+  Proof.
+    intros d bx iid s H.
+    pose proof (add_after_del (remote d) (with_iid iid s) H) as A. cbn [with_iid s_epr] in A.
+    repeat split; cbn [handle_all handle fst remote probe_matches]; try exact A.
   Qed.
 End History.
